@@ -265,7 +265,10 @@ class Extractor:
             raise Unsupported("expression too large in %s" % body.key)
         if bb in path:
             if getattr(self, "loops_ok", False):
-                return ("loop", bb)       # this branch runs into a loop: not followed
+                # this branch runs into a loop: not followed (the calls logged so far stay with the leaf)
+                if self.effects and env.get(LOG):
+                    return ("state", ("loop", bb), ((LOG, env.get(LOG, ())),))
+                return ("loop", bb)
             raise Unsupported("loop through bb%d in %s" % (bb, body.key))
         path = path + (bb,)
         blk = body.blocks[bb]
@@ -385,6 +388,9 @@ class Extractor:
             if key in self.inline and key in self.prog.bodies:
                 self.inlined.add(key)
                 res = self.run(self.prog.bodies[key], args, depth + 1)
+                if self.effects and body.local_tystr(F.call_dest(t)[0]) in ("()", "!"):
+                    # an inlined helper called for its effect only: its formula (conditions, calls) stays on the path
+                    env[LOG] = env.get(LOG, ()) + (("inlined", key, res),)
             elif decl.endswith("future::future::Future::poll") and len(args) == 2:
                 # an `.await`: the future completes with a value named after the future (the Pending arm, which only
                 # yields and polls again, is not a behaviour of its own)
@@ -410,7 +416,7 @@ class Extractor:
                 raise Unsupported("call result into projected place in %s" % body.key)
             if self.effects and res[0] == "call":
                 rty = body.local_tystr(d[0])
-                if rty in ("()", "!") or "JoinHandle" in rty:
+                if rty in ("()", "!") or "JoinHandle" in rty or key in getattr(self, "log_calls", ()):
                     # a call made for its effect only: keep it, in order, in the path's effect log
                     env[LOG] = env.get(LOG, ()) + (res,)
             env[d[0]] = res
@@ -522,6 +528,8 @@ def subst(t, f):
         return ("state", subst(t[1], f), tuple((p_, tuple(subst(c, f) for c in v) if p_ == LOG else subst(v, f)) for p_, v in t[2]))
     if k in ("downcast", "index"):
         return (k, subst(t[1], f)) + tuple(subst(x, f) if isinstance(x, tuple) and x and isinstance(x[0], str) else x for x in t[2:])
+    if k in ("castk", "un", "await", "divc", "ok", "err", "inlined"):
+        return (k,) + tuple(subst(x, f) if isinstance(x, tuple) and x and isinstance(x[0], str) else x for x in t[1:])
     return t
 
 
@@ -529,7 +537,12 @@ def atoms(t, pred, out=None):
     """All sub-terms satisfying pred (not descending into them)."""
     if out is None:
         out = []
-    if not isinstance(t, tuple):
+    if not isinstance(t, tuple) or not t:
+        return out
+    if not isinstance(t[0], str):
+        # a plain sequence of terms (an effect log, an argument list)
+        for x in t:
+            atoms(x, pred, out)
         return out
     if pred(t):
         if t not in out:
@@ -637,6 +650,8 @@ def term_str(t, depth=0):
         return "%s[%s]" % (term_str(t[1]), term_str(t[2]))
     if k == "await":
         return "await(%s)" % term_str(t[1])
+    if k == "inlined":
+        return "%s{%s}" % (t[1].rsplit("::", 1)[-1], term_str(t[2]))
     if k == "stop":
         return "stop(bb%s)" % t[1]
     if k == "divc":
@@ -843,4 +858,25 @@ def ok_paths(t, is_ok):
         elif is_ok(x):
             out.append((conds, x))
     go(t, [])
+    return out
+
+
+def paths(t):
+    """Every path of an effects-mode formula: [(conds, log, leaf)] with conds = [(term, ('is', bool) | ('eq', v) | ('ne', [vs]))]
+    and log = the calls logged along the way, in order (logs of nested states are appended as they are met)."""
+    out = []
+
+    def go(x, conds, log):
+        if x[0] == "state":
+            return go(x[1], conds, log + list(dict(x[2]).get(LOG, ())))
+        if x[0] == "ite":
+            go(x[2], conds + [(x[1], ("is", True))], log)
+            go(x[3], conds + [(x[1], ("is", False))], log)
+        elif x[0] == "switch":
+            for v, y in x[2]:
+                go(y, conds + [(x[1], ("eq", v))], log)
+            go(x[3], conds + [(x[1], ("ne", [v for v, _ in x[2]]))], log)
+        else:
+            out.append((conds, log, x))
+    go(t, [], [])
     return out
